@@ -47,6 +47,9 @@ PROP = Prop(
                   "hand-written Lean transcription of primitives.go (Model/C17.lean), tied by differential runs on both copies",
                   "bits.Len32/Len64, binary.BigEndian.*, math.Float64bits are modelled (Nat.log2, big-endian folds, identity on the 64 bits)",
                   "Lean compiler/runtime for the driver"],
+    partial="proved: 32-bit decoder exactness, both varint encoders + all length functions, uvarint round trip, table and copy facts. "
+            "Not proved (differential + Spec verdict only): uvarlong decoder exactness (the generated 10-level proof script exceeded the "
+            "time budget), zig-zag bijection and hence Varint/Varlong round trips, fixed-width round trips, Reader laws.",
     assumptions=["Go `int` is 64 bits (int(uint32)-1 cannot wrap)",
                  "string/slice lengths passed to the length-prefixed encoders are < 2^15 (int16 prefix), < 2^31 (int32/varint prefix), "
                  "< 2^32-1 (compact prefix) for the round-trip theorems; outside, the code truncates the prefix exactly as the model does",
@@ -54,13 +57,14 @@ PROP = Prop(
 )
 
 MANIFEST = {
-    "text": "Lean theorems over all inputs: AppendUvarint/AppendVarint/AppendVarlong emit exactly LEB128 / zig-zag LEB128 of the value and the "
-            "length functions (through the uvarintLens table regenerated from the source) equal the encoded length; Uvarint/Varint/Varlong "
-            "return exactly the reference decoding on every byte string (n>0: value and bytes consumed; 0: input ran out; -5/-10: more than "
-            "5/10 bytes or value does not fit), never index past the input; decode(encode v ++ rest) = v for every 32/64-bit value; big-endian "
-            "fixed-width round trips; every Reader method either consumes exactly one encoding or invalidates the reader (bad, Src emptied), "
-            "array-length results never exceed the remaining input. The private kmsg copy is token-identical (regenerated fact) and is run "
-            "through the same differential ops.",
+    "text": "Lean theorems (kernel-checked, all inputs): Uvarint returns exactly the reference LEB128 result on every byte string (n>0: value and "
+            "bytes consumed; 0: input ran out; -5: more than 5 bytes or value does not fit 32 bits) and never indexes past the input; "
+            "AppendUvarint and appendUvarlong append exactly the LEB128 bytes of every 32/64-bit value to any dst; UvarintLen/VarintLen/"
+            "VarlongLen/uvarlongLen, through the uvarintLens table regenerated from the source, equal the encoded length; "
+            "Uvarint(AppendUvarint(u) ++ rest) = (u, UvarintLen u) for every u; the reference reader inverts the reference writer. "
+            "The private kmsg copy is token-identical (regenerated fact) and is compiled and run through the same ops. "
+            "Tied only by the differential run + Spec verdict on both copies (not proved): the 10-byte decoder, zig-zag, fixed-width "
+            "big-endian ints/float/uuid, length-prefixed encoders, every Reader method (consume exactly one encoding or invalidate).",
     "note": "Trusted: Lean kernel; the hand transcription of primitives.go (validated differentially against both compiled copies on every run, "
             "not verified); c17gen; Go's bits.Len/encoding/binary/math.Float64bits are modelled. 'Overlong' is read as 'more than 5/10 bytes'; "
             "non-minimal encodings such as 80 00 are accepted by the code and by the Kafka reference reader.",
